@@ -71,7 +71,7 @@ func c14BodiesOfAnySize(res *Result) {
 // the output is the text with the comments taken out, below and above every threshold.
 func c14StaticTemplates(res *Result) {
 	for _, n := range []int{10, 1000, 4000, 4090, 4096, 4097, 5000, 8192, 40000, 65536, 70000, 300000} {
-		for _, shape := range []string{"header", "middle", "trailer", "several", "looks-like-tags-inside", "escaped-opener"} {
+		for _, shape := range []string{"header", "middle", "trailer", "several", "ruler", "looks-like-tags-inside", "escaped-opener"} {
 			pad := strings.Repeat("p.note: margin 0; /* css */ ", n/20+2)[:n]
 			var src, want string
 			switch shape {
@@ -83,6 +83,8 @@ func c14StaticTemplates(res *Result) {
 				src, want = pad+"{# end #}", pad
 			case "several":
 				src, want = "{# a #}"+pad[:n/3]+"{# b\nb #}"+pad[n/3:]+"{##}", pad
+			case "ruler":
+				src, want = pad[:n/2]+" \n{#---------- list ----------#}\n "+pad[n/2:]+"\n{#-- next --#}\n", pad[:n/2]+" \n\n "+pad[n/2:]+"\n\n"
 			case "looks-like-tags-inside":
 				src, want = pad[:n/2]+"{# {{ x }} {% if y %} #}"+pad[n/2:], pad
 			default:
